@@ -324,4 +324,22 @@ theorem facts_of_pcfgFrom {pg : PUG U} {group : List (Node U)} {fuel : Nat} {st 
       · rintro ⟨l, hl, hsp, hh⟩
         exact ⟨(Q, a, l.n.prob), mem_heads.mpr ⟨l, hl, hsp, (X, Q, a), hh, rfl⟩, rfl, rfl⟩
 
+/-- the refilling loop ran to completion with this fuel (`while to_fill` exited) -/
+def fillDone (pg : PUG U) (group : List (Node U)) (fuel : Nat) : Bool :=
+  match fragState pg group fuel with
+  | some st => st.toFill.isEmpty
+  | none => false
+
+theorem pcfgFrom_some {pg : PUG U} {group : List (Node U)} {fuel : Nat} {frag : PUG (U × Nat)}
+    (h : pcfgFrom pg group fuel = some frag) (hd : fillDone pg group fuel = true) :
+    ∃ st, fragState pg group fuel = some st ∧ frag = fragOf pg st ∧ st.toFill = [] := by
+  rw [pcfgFrom_eq] at h
+  unfold fillDone at hd
+  cases hs : fragState pg group fuel with
+  | none => rw [hs] at h; cases h
+  | some st =>
+    rw [hs] at h hd
+    simp only [Option.map_some, Option.some.injEq] at h
+    exact ⟨st, rfl, h.symm, by simpa using hd⟩
+
 end PS.Sp
